@@ -52,6 +52,9 @@ func propertyOracle(s *Spec, r *Run) []Failure {
 	if r.Dropped != "" || !pure(&s.Obj) {
 		return fs
 	}
+	if isNewton(s.Routine) {
+		return newtonOracle(s, r)
+	}
 	rt := s.Routine
 	if !bitsEq(r.X0After, s.X0) {
 		fs = append(fs, Failure{rt + ".x0_written", fmt.Sprintf("caller's x0 %v became %v", s.X0, r.X0After)})
